@@ -22,13 +22,21 @@ CopySit(St, c, r) ==
            sv == IF c.svid = -1 THEN Current(vs) ELSE vs[Idx(vs, c.svid)]
        IN {<<"tags", c.tdir, sv.tags # None, c.tags = None>>, <<"meta", c.mdir, sv.meta.user # None, c.meta = None>>}
   ELSE {}
-CStep(c) == Step(c) /\ sits' = <<CopySit(S, c, Apply(S, c).r)>>
+\* The options of CreateMultipartUpload become visible only when the upload completes: a successful
+\* CompleteMultipartUpload of an upload created with / without content type, metadata, tags, storage class.
+MpuSit(St, c, r) ==
+  IF c.op = "CompleteUpload" /\ r.err = "" /\ UpIdx(St, c.u) # 0
+  THEN LET up == St.ups[UpIdx(St, c.u)] IN
+       {<<"mpu-ctype", up.ctype # None>>, <<"mpu-meta", up.meta.user # None>>, <<"mpu-tags", up.tags # None>>,
+        <<"mpu-class", up.class # "STANDARD">>, <<"mpu-parts", Len(up.parts) > 0>>}
+  ELSE {}
+CStep(c) == Step(c) /\ sits' = <<CopySit(S, c, Apply(S, c).r) \cup MpuSit(S, c, Apply(S, c).r)>>
 CoverInit == Init /\ sits = <<>> /\ TLCSet(9, {})
 CoverNext == S.clock < MaxClock /\ \E c \in Calls(S) : CStep(c)
 CopyCover ==
   IF sits = <<>> THEN TRUE
   ELSE LET new == {ToString(x) : x \in sits[1]} \ TLCGet(9) IN
        IF new = {} THEN TRUE
-       ELSE TLCSet(9, TLCGet(9) \cup new) /\ PrintT(ToJson([calls |-> hist, keys |-> new]))
+       ELSE TLCSet(9, TLCGet(9) \cup new) /\ PrintT(ToJson([calls |-> hist, keys |-> {ToString(x) : x \in sits[1]}]))
 CoverView == <<S, sits>>
 =============================================================================
